@@ -10,9 +10,10 @@ region:
   (blocked while a `join_scoped` holds that group entry);
 * `which_scoped_groups`: ONE region — `index.get(scope)`;
 * `which_groups` / `which_scopes` / `which_scopes_and_groups`: `map.iter()` — the DashMap is visited SHARD BY
-  SHARD, each shard under its own read lock; which keys share a shard and in which order the shards come
-  is the schedule's choice (`RTid.r i (some keys)`: the next shard holds `keys`; a shard with a held entry
-  blocks), writers run between two shards; `RTid.r i none` = the iteration is over, the call returns
+  SHARD, each shard under its own read lock: shard `j` = the keys `k` with `sh k % nSh = j` for an ARBITRARY
+  shard function `sh` and shard count `nSh` (parameters of `rstep`; every theorem is for all of them), shards
+  `0 … nSh-1` in order, one region per shard (all entries of that shard present at that instant; a shard with a
+  held entry blocks), writers run between two shards; after the last shard the call returns
   (`sort`/`dedup` of the result are not modelled: answers are compared as sets).
 
 A reader never writes. Ghosts: `RG.hist` = the writers' regions granted so far (the instant of a region =
@@ -64,28 +65,32 @@ def iterProj : Query → List Key → List Nat
 /-- program counter of a reader thread -/
 inductive RPc
   | call (q : Query)
-  /-- inside `map.iter()`: `vis` = keys visited so far with the instant of their shard's region (ghost),
-  `acc` = the keys found with members -/
-  | iter (q : Query) (vis : List (Key × Nat)) (acc : List Key)
-  /-- returned: `ans` (for `which_scopes_and_groups` the answer is `acc`) -/
-  | ret (q : Query) (ans : List Nat) (acc : List Key) (vis : List (Key × Nat))
+  /-- inside `map.iter()`: `next` = the shard to visit next; ghosts: `first` = instant of the call's first region,
+  `vis` = keys visited so far with the instant of their shard's region; `acc` = the keys found with members -/
+  | iter (q : Query) (next first : Nat) (vis : List (Key × Nat)) (acc : List Key)
+  /-- returned: `ans` (for `which_scopes_and_groups` the answer is `acc`); ghosts: instants of the first and
+  the last region -/
+  | ret (q : Query) (ans : List Nat) (acc : List Key) (vis : List (Key × Nat)) (first last : Nat)
   deriving DecidableEq, Repr
 
+/-- the entries of shard `j` present in the forward map -/
+def shardKeys (sh : Key → Nat) (nSh : Nat) (st : State) (j : Nat) : List Key :=
+  (keys st.map).filter (fun k => sh k % nSh == j)
+
 /-- one region of a reader at instant `now` -/
-def readerStep (g : G) (now : Nat) (shard : Option (List Key)) : RPc → RPc
+def readerStep (sh : Key → Nat) (nSh : Nat) (g : G) (now : Nat) : RPc → RPc
   | .call q =>
-    if isIter q then .iter q [] []
+    if isIter q then .iter q 0 now [] []         -- `map.iter()` created: no lock yet
     else if singleBlocked g q then .call q
-    else .ret q (singleAns g.st q) [] [(qKey q, now)]
-  | .iter q vis acc =>
-    match shard with
-    | none => .ret q (iterProj q acc) acc vis
-    | some ks =>
-      -- every key is visited once
-      let ks' := (ks.filter (fun k => !(vis.map (·.1)).contains k)).eraseDups
-      if ks'.any (locked g) then .iter q vis acc
-      else .iter q (vis ++ ks'.map (fun k => (k, now))) (acc ++ ks'.filter (fun k => !(membersOf g.st k).isEmpty))
-  | .ret q a c v => .ret q a c v
+    else .ret q (singleAns g.st q) [] [(qKey q, now)] now now
+  | .iter q next first vis acc =>
+    if nSh ≤ next then .ret q (iterProj q acc) acc vis first now
+    else
+      let ks := shardKeys sh nSh g.st next
+      if ks.any (locked g) then .iter q next first vis acc
+      else .iter q (next + 1) first (vis ++ ks.map (fun k => (k, now)))
+             (acc ++ ks.filter (fun k => !(membersOf g.st k).isEmpty))
+  | .ret q a c v f l => .ret q a c v f l
 
 structure RG where
   g : G
@@ -96,17 +101,17 @@ structure RG where
 
 inductive RTid
   | w (t : Tid)
-  | r (i : Nat) (shard : Option (List Key))
+  | r (i : Nat)
   deriving DecidableEq, Repr
 
-def rstep (rg : RG) : RTid → RG
+def rstep (sh : Key → Nat) (nSh : Nat) (rg : RG) : RTid → RG
   | .w t => { rg with g := step rg.g t, hist := rg.hist ++ [t] }
-  | .r i sh =>
+  | .r i =>
     match rg.rd[i]? with
     | none => rg
-    | some pc => { rg with rd := rg.rd.set i (readerStep rg.g rg.hist.length sh pc) }
+    | some pc => { rg with rd := rg.rd.set i (readerStep sh nSh rg.g rg.hist.length pc) }
 
-def rrun (rg : RG) (sched : List RTid) : RG := sched.foldl rstep rg
+def rrun (sh : Key → Nat) (nSh : Nat) (rg : RG) (sched : List RTid) : RG := sched.foldl (rstep sh nSh) rg
 
 def rstart (g : G) (qs : List Query) : RG := ⟨g, qs.map .call, []⟩
 
